@@ -9,7 +9,9 @@ From CGV Require Import Base.PyBase Base.PyVal Base.NxGraph Dialect.DialectImpl
      Reader.ReaderImpl Reader.Grammar Reader.ReaderLemmas Reader.Lin Reader.ReaderSim Reader.ReaderMult Reader.ReaderAst.
 Import ListNotations.
 
-(** ** recursive side conditions *)
+(** ** recursive side conditions; [dc]: a node may close several branches (fix 0460546 of read_cgsmiles) *)
+Section RG.
+Variable dc : bool.
 Fixpoint rg_item (fo : float_oracle) (is_last : bool) (it : item) : bool :=
   match it with
   | Item n r m b brs =>
@@ -23,7 +25,7 @@ Fixpoint rg_item (fo : float_oracle) (is_last : bool) (it : item) : bool :=
                 && (fix ch (c : list item) : bool :=
                       match c with
                       | [] => true
-                      | [x] => rg_item fo true x && is_nil (i_branches x)
+                      | [x] => rg_item fo true x && (dc || is_nil (i_branches x))
                       | x :: r => rg_item fo false x && ch r
                       end) c
                 && go tl
@@ -35,7 +37,7 @@ Fixpoint rg_chain (fo : float_oracle) (c : chain) : bool :=
 Fixpoint rg_bchain (fo : float_oracle) (c : list item) : bool :=
   match c with
   | [] => true
-  | [x] => rg_item fo true x && is_nil (i_branches x)
+  | [x] => rg_item fo true x && (dc || is_nil (i_branches x))
   | x :: r => rg_item fo false x && rg_bchain fo r
   end.
 Definition rg_branch (fo : float_oracle) (tail_ok : bool) (br : branch) : bool :=
@@ -58,6 +60,172 @@ Proof.
   - induction c as [|x c' IHc]; [reflexivity|]. destruct c' as [|y c'']; [reflexivity|].
     change (rg_bchain fo (x :: y :: c'')) with (rg_item fo false x && rg_bchain fo (y :: c'')). rewrite <- IHc. reflexivity.
 Qed.
+
+(** ** L2: the grammar's side conditions and the class predicates give the recursive conditions *)
+Lemma flat_map_flat_map {A B C} (f : B -> list C) (g : A -> list B) l :
+  flat_map f (flat_map g l) = flat_map (fun x => flat_map f (g x)) l.
+Proof. induction l as [|x r IH]; [reflexivity|]. cbn [flat_map]. now rewrite flat_map_app, IH. Qed.
+Lemma flat_item_eq n r m b brs :
+  flat_item (Item n r m b brs) = Item n r m b brs :: flat_map (fun br => flat_chain (b_chain br)) brs.
+Proof.
+  cbn [flat_item]. f_equal. induction brs as [|[c bm a] tl IH]; [reflexivity|]. cbn [flat_map b_chain]. now rewrite IH.
+Qed.
+Definition local_sites (it : item) : list (item * nat * branch) :=
+  map (fun jb => (it, fst jb, snd jb)) (with_index O (i_branches it)).
+Lemma sites_eq c : sites c = flat_map local_sites (flat_chain c). Proof. reflexivity. Qed.
+Lemma sites_cons n r m b brs c :
+  sites (Item n r m b brs :: c)
+  = local_sites (Item n r m b brs) ++ flat_map (fun br => sites (b_chain br)) brs ++ sites c.
+Proof.
+  rewrite !sites_eq. unfold flat_chain at 1. cbn [flat_map]. fold (flat_chain c). rewrite flat_map_app, flat_item_eq.
+  cbn [flat_map]. rewrite <- app_assoc. f_equal. f_equal. now rewrite flat_map_flat_map.
+Qed.
+Lemma flat_chain_cons n r m b brs c :
+  flat_chain (Item n r m b brs :: c)
+  = Item n r m b brs :: flat_map (fun br => flat_chain (b_chain br)) brs ++ flat_chain c.
+Proof. unfold flat_chain at 1. cbn [flat_map]. fold (flat_chain c). now rewrite flat_item_eq. Qed.
+Lemma existsb_flat_map {A B} (p : B -> bool) (g : A -> list B) l :
+  existsb p (flat_map g l) = existsb (fun x => existsb p (g x)) l.
+Proof. induction l as [|x r IH]; [reflexivity|]. cbn [flat_map existsb]. now rewrite existsb_app, IH. Qed.
+Lemma forallb_flat_map {A B} (p : B -> bool) (g : A -> list B) l :
+  forallb p (flat_map g l) = forallb (fun x => forallb p (g x)) l.
+Proof. induction l as [|x r IH]; [reflexivity|]. cbn [flat_map forallb]. now rewrite forallb_app, IH. Qed.
+Lemma existsb_local (p : item * nat * branch -> bool) it :
+  existsb p (local_sites it) = false -> forall br, In br (i_branches it) -> exists j, p (it, j, br) = false.
+Proof.
+  unfold local_sites. generalize O. induction (i_branches it) as [|b0 tl IH]; intros k H br Hin; [contradiction|].
+  cbn [with_index map existsb fst snd] in H. apply orb_false_elim in H as [H1 H2]. destruct Hin as [->|Hin].
+  - now exists k.
+  - now apply (IH (Datatypes.S k)).
+Qed.
+
+(** the global conditions, bundled *)
+Definition last_plain (c : list item) : bool :=
+  match rev c with it :: _ => is_nil (i_branches it) | [] => true end.
+Definition good (fo : float_oracle) (c : chain) : Prop :=
+  forallb (item_ok fo) (flat_chain c) = true /\ has_branch_mult c = false /\ (dc = false -> cls_double_close c = false).
+Lemma good_cons fo n r m b brs c : good fo (Item n r m b brs :: c) ->
+  item_ok fo (Item n r m b brs) = true
+  /\ (forall br, In br brs -> b_mult br = None /\ (dc || last_plain (b_chain br)) = true /\ good fo (b_chain br))
+  /\ good fo c.
+Proof.
+  intros (H1 & H2 & H3).
+  unfold has_branch_mult in *. rewrite sites_cons in H2.
+  rewrite !existsb_app in H2. apply orb_false_elim in H2 as [H2a H2]. apply orb_false_elim in H2 as [H2b H2c].
+  rewrite existsb_flat_map in H2b.
+  rewrite flat_chain_cons in H1. cbn [forallb] in H1.
+  apply andb_prop in H1 as [H1a H1]. rewrite forallb_app in H1. apply andb_prop in H1 as [H1b H1c].
+  rewrite forallb_flat_map in H1b.
+  assert (Hf : forall br, In br brs -> forall (p : branch -> bool), existsb p brs = false -> p br = false).
+  { intros br Hin p Hp. destruct (p br) eqn:E; [|reflexivity]. assert (existsb p brs = true); [|congruence].
+    apply existsb_exists. now exists br. }
+  assert (H3' : dc = false -> existsb (fun s => match rev (b_chain (snd s)) with it :: _ => negb (is_nil (i_branches it)) | [] => false end)
+                                      (local_sites (Item n r m b brs)) = false
+                              /\ existsb (fun x => existsb (fun s => match rev (b_chain (snd s)) with it :: _ => negb (is_nil (i_branches it)) | [] => false end)
+                                                            (sites (b_chain x))) brs = false
+                              /\ cls_double_close c = false).
+  { intros Hdc. specialize (H3 Hdc). unfold cls_double_close in H3. rewrite sites_cons, !existsb_app in H3.
+    apply orb_false_elim in H3 as [H3a H3]. apply orb_false_elim in H3 as [H3b H3c]. rewrite existsb_flat_map in H3b. repeat split; assumption. }
+  split; [assumption|]. split.
+  - intros br Hin. destruct (existsb_local _ _ H2a br Hin) as (j1 & Hj1). cbn [snd] in Hj1.
+    split; [now destruct (b_mult br)|]. rewrite forallb_forall in H1b. specialize (H1b br Hin). split.
+    + destruct (Bool.bool_dec dc true) as [Hdc|Hdc]; [now rewrite Hdc|]. apply not_true_is_false in Hdc.
+      destruct (H3' Hdc) as (H3a & _ & _). destruct (existsb_local _ _ H3a br Hin) as (j2 & Hj2). cbn [snd] in Hj2.
+      apply orb_true_iff. right. unfold last_plain. destruct (rev (b_chain br)) as [|z ?]; [reflexivity|]. now destruct (i_branches z).
+    + split; [assumption|]. split; [apply (Hf br Hin _ H2b)|]. intros Hdc. destruct (H3' Hdc) as (_ & H3b & _). apply (Hf br Hin _ H3b).
+  - split; [assumption|]. split; [assumption|]. intros Hdc. now destruct (H3' Hdc) as (_ & _ & ?).
+Qed.
+
+(** consumers, one level at a time *)
+Fixpoint cons_brs (is_last : bool) (brs : list branch) : bool :=
+  match brs with
+  | [] => true
+  | Branch c _ a :: tl => (negb (is_some a) || negb (is_nil tl) || negb is_last) && consumers_chain c && cons_brs is_last tl
+  end.
+Lemma consumers_item_eq is_last n r m b brs :
+  consumers_item is_last (Item n r m b brs)
+  = (negb (is_some b) || negb (is_nil brs) || negb is_last) && cons_brs is_last brs.
+Proof.
+  cbn [consumers_item]. f_equal. induction brs as [|[c bm a] tl IH]; [reflexivity|].
+  cbn [cons_brs]. rewrite <- IH. reflexivity.
+Qed.
+
+Definition item_rg (fo : float_oracle) (it : item) : Prop :=
+  forall is_last, good fo [it] -> consumers_item is_last it = true -> rg_item fo is_last it = true.
+Lemma good_single fo it c : good fo (it :: c) -> good fo [it].
+Proof.
+  destruct it as [n r m b brs]. intros H. destruct (good_cons fo n r m b brs c H) as (H1 & H3 & _).
+  assert (Hb : forall br, In br brs -> good fo (b_chain br)) by (intros br Hin; now destruct (H3 br Hin) as (_ & _ & ?)).
+  assert (E1 : forallb (fun x => forallb (item_ok fo) (flat_chain (b_chain x))) brs = true).
+  { apply forallb_forall. intros br Hin. now destruct (Hb br Hin). }
+  assert (E2 : forall p, (forall br, In br brs -> existsb p (sites (b_chain br)) = false) ->
+                         existsb (fun x => existsb p (sites (b_chain x))) brs = false).
+  { intros p Hp. apply not_true_is_false. intros E. apply existsb_exists in E as (br & Hin & E). rewrite (Hp br Hin) in E. discriminate. }
+  destruct H as (_ & G2 & G3). unfold has_branch_mult in G2. rewrite sites_cons, !existsb_app in G2.
+  apply orb_false_elim in G2 as [G2 _].
+  split; [|split].
+  - rewrite flat_chain_cons. cbn [forallb]. rewrite H1. cbn [andb]. now rewrite !app_nil_r, forallb_flat_map, E1.
+  - unfold has_branch_mult. rewrite sites_cons, !app_nil_r, !existsb_app, existsb_flat_map, G2, E2; [reflexivity|].
+    intros br Hin. now destruct (Hb br Hin) as (_ & ? & _).
+  - intros Hdc. specialize (G3 Hdc). unfold cls_double_close in *. rewrite sites_cons, !existsb_app in G3.
+    apply orb_false_elim in G3 as [G3 _].
+    rewrite sites_cons, !app_nil_r, !existsb_app, existsb_flat_map, G3, E2; [reflexivity|].
+    intros br Hin. destruct (Hb br Hin) as (_ & _ & Hx). now apply Hx.
+Qed.
+Lemma good_tail fo it c : good fo (it :: c) -> good fo c.
+Proof. destruct it as [n r m b brs]. intros H. now destruct (good_cons fo n r m b brs c H) as (_ & _ & ?). Qed.
+
+Lemma chain_rg fo c : Forall (item_rg fo) c -> good fo c -> consumers_chain c = true -> rg_chain fo c = true.
+Proof.
+  induction 1 as [|x c Hx _ IH]; intros Hg Hc; [reflexivity|]. destruct c as [|y c'].
+  - cbn [rg_chain consumers_chain] in *. now apply Hx.
+  - change (consumers_chain (x :: y :: c')) with (consumers_item false x && consumers_chain (y :: c')) in Hc.
+    apply andb_prop in Hc as [Hc1 Hc2].
+    change (rg_chain fo (x :: y :: c')) with (rg_item fo false x && rg_chain fo (y :: c')).
+    rewrite (Hx false (good_single fo x _ Hg) Hc1). cbn [andb]. apply IH; [now apply (good_tail fo x)|assumption].
+Qed.
+Lemma last_plain_cons x y c : last_plain (x :: y :: c) = last_plain (y :: c).
+Proof.
+  unfold last_plain. cbn [rev]. destruct (rev c ++ [y]) as [|z t] eqn:E; [destruct (rev c); discriminate|]. reflexivity.
+Qed.
+Lemma bchain_rg fo c : Forall (item_rg fo) c -> good fo c -> consumers_chain c = true -> (dc || last_plain c) = true ->
+  rg_bchain fo c = true.
+Proof.
+  induction 1 as [|x c Hx _ IH]; intros Hg Hc Hl; [reflexivity|]. destruct c as [|y c'].
+  - cbn [rg_bchain consumers_chain] in *. rewrite (Hx true Hg Hc). cbn [andb]. unfold last_plain in Hl. cbn in Hl. exact Hl.
+  - change (consumers_chain (x :: y :: c')) with (consumers_item false x && consumers_chain (y :: c')) in Hc.
+    apply andb_prop in Hc as [Hc1 Hc2]. rewrite last_plain_cons in Hl.
+    change (rg_bchain fo (x :: y :: c')) with (rg_item fo false x && rg_bchain fo (y :: c')).
+    rewrite (Hx false (good_single fo x _ Hg) Hc1). cbn [andb]. apply IH; [now apply (good_tail fo x)|assumption|assumption].
+Qed.
+
+Lemma ast_rg fo : forall it, item_rg fo it.
+Proof.
+  apply (item_ind2 (item_rg fo) (fun br => Forall (item_rg fo) (b_chain br))).
+  - intros n r m b brs Hbrs is_last Hg Hc. rewrite rg_item_eq. rewrite consumers_item_eq in Hc.
+    apply andb_prop in Hc as [Hc1 Hc2]. destruct (good_cons fo n r m b brs [] Hg) as (H1 & H3 & _).
+    rewrite H1, Hc1. cbn [andb]. clear Hc1 Hg H1.
+    induction brs as [|[c bm a] tl IHb]; [reflexivity|].
+    inversion Hbrs as [|? ? Hb Htl]; subst. cbn [b_chain] in Hb.
+    cbn [cons_brs] in Hc2. apply andb_prop in Hc2 as [Hc2 Hc3]. apply andb_prop in Hc2 as [Hca Hcc].
+    destruct (H3 (Branch c bm a) (or_introl eq_refl)) as (Hm & Hl & Hgc). cbn [b_mult b_chain] in Hm, Hl, Hgc. subst bm.
+    cbn [rg_branches rg_branch is_some negb andb].
+    rewrite (bchain_rg fo c Hb Hgc Hcc Hl), andb_true_r.
+    assert (Ht : (negb (is_some a) || (negb (is_nil tl) || negb is_last)) = true) by (now rewrite orb_assoc).
+    rewrite Ht. cbn [andb]. apply IHb; [assumption|assumption|].
+    intros br Hin. apply H3. now right.
+  - intros c bm a Hc. exact Hc.
+Qed.
+
+(** L2 *)
+Theorem rg_of_wf_gen fo a : wf fo a = true -> has_branch_mult a = false -> (dc = false -> cls_double_close a = false) ->
+  rg_chain fo a = true.
+Proof.
+  intros Hwf Hb Hd. unfold wf in Hwf. apply andb_prop in Hwf as [Hwf _]. apply andb_prop in Hwf as [Hwf Hcons].
+  apply andb_prop in Hwf as [_ Hok]. apply chain_rg; [|repeat split; assumption|assumption].
+  apply Forall_forall. intros it _. apply ast_rg.
+Qed.
+End RG.
 
 (** ** depth bookkeeping *)
 Fixpoint drun (d : nat) (l : list lin) : option nat :=
@@ -88,11 +256,11 @@ Definition node_lin (n : pystr) (r : list (option sym * marker)) (m : option (li
   {| l_open := false; l_name := n; l_mult := m; l_rings := r; l_bond := b; l_close := None |}.
 
 (** ** L1: the recursive conditions give a flat form *)
-Definition item_flat (fo : float_oracle) (it : item) : Prop := forall is_last, rg_item fo is_last it = true ->
+Definition item_flat (fo : float_oracle) (it : item) : Prop := forall is_last, rg_item false fo is_last it = true ->
   exists rest, lin_item it = Some (node_lin (i_name it) (i_rings it) (i_mult it) (i_bond it) :: rest)
                /\ forallb (lin_ok fo) (node_lin (i_name it) (i_rings it) (i_mult it) (i_bond it) :: rest) = true
                /\ balanced rest /\ (i_branches it = [] -> rest = []).
-Definition branch_flat (fo : float_oracle) (br : branch) : Prop := forall tail_ok, rg_branch fo tail_ok br = true ->
+Definition branch_flat (fo : float_oracle) (br : branch) : Prop := forall tail_ok, rg_branch false fo tail_ok br = true ->
   exists l, lin_branch br = Some l /\ forallb (lin_ok fo) l = true /\ balanced l.
 
 Lemma node_lin_ok fo n r m b brs :
@@ -106,7 +274,7 @@ Qed.
 Lemma concat_opt_some {A} (a : list A) r :
   concat_opt (Some a :: r) = match concat_opt r with Some y => Some (a ++ y) | None => None end.
 Proof. reflexivity. Qed.
-Lemma bchain_flat fo c : Forall (item_flat fo) c -> c <> [] -> rg_bchain fo c = true ->
+Lemma bchain_flat fo c : Forall (item_flat fo) c -> c <> [] -> rg_bchain false fo c = true ->
   exists pre z, concat_opt (map lin_item c) = Some (pre ++ [z])
     /\ forallb (lin_ok fo) (pre ++ [z]) = true /\ balanced pre
     /\ l_open z = false /\ l_close z = None /\ l_bond z = None
@@ -168,7 +336,7 @@ Proof.
 Qed.
 
 Lemma branches_flat fo is_last brs : Forall (branch_flat fo) brs ->
-  forallb (fun br => negb (is_nil (b_chain br))) brs = true -> rg_branches fo is_last brs = true ->
+  forallb (fun br => negb (is_nil (b_chain br))) brs = true -> rg_branches false fo is_last brs = true ->
   exists rest, concat_opt (map lin_branch brs) = Some rest /\ forallb (lin_ok fo) rest = true /\ balanced rest
                /\ (brs = [] -> rest = []).
 Proof.
@@ -204,7 +372,7 @@ Proof.
     exists w. cbn [lin_branch]. rewrite Ec. split; [exact Ew|]. split; assumption.
 Qed.
 
-Lemma chain_flat fo c : rg_chain fo c = true -> c <> [] ->
+Lemma chain_flat fo c : rg_chain false fo c = true -> c <> [] ->
   exists i t, linearize c = Some (i :: t) /\ forallb (lin_ok fo) (i :: t) = true /\ balanced (i :: t) /\ l_open i = false.
 Proof.
   induction c as [|x c IH]; intros Hrg Hne; [contradiction|]. unfold linearize in *.
@@ -223,166 +391,15 @@ Proof.
 Qed.
 
 (** L1 *)
-Theorem flat_ok_of_rg fo a : rg_chain fo a = true -> a <> [] -> flat_ok fo a = true.
+Theorem flat_ok_of_rg fo a : rg_chain false fo a = true -> a <> [] -> flat_ok fo a = true.
 Proof.
   intros Hrg Hne. destruct (chain_flat fo a Hrg Hne) as (i & t & El & Hok & Hbal & Hop).
   unfold flat_ok. rewrite El. unfold lins_ok. rewrite Hok, Hop. rewrite lin_depth_drun, (Hbal O). reflexivity.
 Qed.
 
-(** ** L2: the grammar's side conditions and the class predicates give the recursive conditions *)
-Lemma flat_map_flat_map {A B C} (f : B -> list C) (g : A -> list B) l :
-  flat_map f (flat_map g l) = flat_map (fun x => flat_map f (g x)) l.
-Proof. induction l as [|x r IH]; [reflexivity|]. cbn [flat_map]. now rewrite flat_map_app, IH. Qed.
-Lemma flat_item_eq n r m b brs :
-  flat_item (Item n r m b brs) = Item n r m b brs :: flat_map (fun br => flat_chain (b_chain br)) brs.
-Proof.
-  cbn [flat_item]. f_equal. induction brs as [|[c bm a] tl IH]; [reflexivity|]. cbn [flat_map b_chain]. now rewrite IH.
-Qed.
-Definition local_sites (it : item) : list (item * nat * branch) :=
-  map (fun jb => (it, fst jb, snd jb)) (with_index O (i_branches it)).
-Lemma sites_eq c : sites c = flat_map local_sites (flat_chain c). Proof. reflexivity. Qed.
-Lemma sites_cons n r m b brs c :
-  sites (Item n r m b brs :: c)
-  = local_sites (Item n r m b brs) ++ flat_map (fun br => sites (b_chain br)) brs ++ sites c.
-Proof.
-  rewrite !sites_eq. unfold flat_chain at 1. cbn [flat_map]. fold (flat_chain c). rewrite flat_map_app, flat_item_eq.
-  cbn [flat_map]. rewrite <- app_assoc. f_equal. f_equal. now rewrite flat_map_flat_map.
-Qed.
-Lemma flat_chain_cons n r m b brs c :
-  flat_chain (Item n r m b brs :: c)
-  = Item n r m b brs :: flat_map (fun br => flat_chain (b_chain br)) brs ++ flat_chain c.
-Proof. unfold flat_chain at 1. cbn [flat_map]. fold (flat_chain c). now rewrite flat_item_eq. Qed.
-Lemma existsb_flat_map {A B} (p : B -> bool) (g : A -> list B) l :
-  existsb p (flat_map g l) = existsb (fun x => existsb p (g x)) l.
-Proof. induction l as [|x r IH]; [reflexivity|]. cbn [flat_map existsb]. now rewrite existsb_app, IH. Qed.
-Lemma forallb_flat_map {A B} (p : B -> bool) (g : A -> list B) l :
-  forallb p (flat_map g l) = forallb (fun x => forallb p (g x)) l.
-Proof. induction l as [|x r IH]; [reflexivity|]. cbn [flat_map forallb]. now rewrite forallb_app, IH. Qed.
-Lemma existsb_local (p : item * nat * branch -> bool) it :
-  existsb p (local_sites it) = false -> forall br, In br (i_branches it) -> exists j, p (it, j, br) = false.
-Proof.
-  unfold local_sites. generalize O. induction (i_branches it) as [|b0 tl IH]; intros k H br Hin; [contradiction|].
-  cbn [with_index map existsb fst snd] in H. apply orb_false_elim in H as [H1 H2]. destruct Hin as [->|Hin].
-  - now exists k.
-  - now apply (IH (Datatypes.S k)).
-Qed.
-
-(** the global conditions, bundled *)
-Definition good (fo : float_oracle) (c : chain) : Prop :=
-  forallb (item_ok fo) (flat_chain c) = true /\ has_branch_mult c = false /\ cls_double_close c = false.
-Definition last_plain (c : list item) : bool :=
-  match rev c with it :: _ => is_nil (i_branches it) | [] => true end.
-Lemma good_cons fo n r m b brs c : good fo (Item n r m b brs :: c) ->
-  item_ok fo (Item n r m b brs) = true
-  /\ (forall br, In br brs -> b_mult br = None /\ last_plain (b_chain br) = true /\ good fo (b_chain br))
-  /\ good fo c.
-Proof.
-  intros (H1 & H2 & H3).
-  unfold has_branch_mult, cls_double_close in *. rewrite sites_cons in H2, H3.
-  rewrite !existsb_app in H2, H3. apply orb_false_elim in H2 as [H2a H2]. apply orb_false_elim in H2 as [H2b H2c].
-  apply orb_false_elim in H3 as [H3a H3]. apply orb_false_elim in H3 as [H3b H3c].
-  rewrite existsb_flat_map in H2b, H3b.
-  rewrite flat_chain_cons in H1. cbn [forallb] in H1.
-  apply andb_prop in H1 as [H1a H1]. rewrite forallb_app in H1. apply andb_prop in H1 as [H1b H1c].
-  rewrite forallb_flat_map in H1b.
-  split; [assumption|]. split; [|repeat split; assumption].
-  intros br Hin.
-  destruct (existsb_local _ _ H2a br Hin) as (j1 & Hj1). destruct (existsb_local _ _ H3a br Hin) as (j2 & Hj2).
-  cbn [snd] in Hj1, Hj2. split; [now destruct (b_mult br)|]. split.
-  { unfold last_plain. destruct (rev (b_chain br)) as [|z ?]; [reflexivity|]. now destruct (i_branches z). }
-  rewrite forallb_forall in H1b. specialize (H1b br Hin).
-  assert (Hf : forall (p : branch -> bool), existsb p brs = false -> p br = false).
-  { intros p Hp. destruct (p br) eqn:E; [|reflexivity]. assert (existsb p brs = true); [|congruence].
-    apply existsb_exists. now exists br. }
-  repeat split; [assumption|apply (Hf _ H2b)|apply (Hf _ H3b)].
-Qed.
-
-(** consumers, one level at a time *)
-Fixpoint cons_brs (is_last : bool) (brs : list branch) : bool :=
-  match brs with
-  | [] => true
-  | Branch c _ a :: tl => (negb (is_some a) || negb (is_nil tl) || negb is_last) && consumers_chain c && cons_brs is_last tl
-  end.
-Lemma consumers_item_eq is_last n r m b brs :
-  consumers_item is_last (Item n r m b brs)
-  = (negb (is_some b) || negb (is_nil brs) || negb is_last) && cons_brs is_last brs.
-Proof.
-  cbn [consumers_item]. f_equal. induction brs as [|[c bm a] tl IH]; [reflexivity|].
-  cbn [cons_brs]. rewrite <- IH. reflexivity.
-Qed.
-
-Definition item_rg (fo : float_oracle) (it : item) : Prop :=
-  forall is_last, good fo [it] -> consumers_item is_last it = true -> rg_item fo is_last it = true.
-Lemma good_single fo it c : good fo (it :: c) -> good fo [it].
-Proof.
-  destruct it as [n r m b brs]. intros H. destruct (good_cons fo n r m b brs c H) as (H1 & H3 & _).
-  unfold good, has_branch_mult, cls_double_close. rewrite sites_cons, flat_chain_cons.
-  cbn [forallb]. rewrite H1. cbn [andb]. rewrite !app_nil_r, !existsb_app.
-  rewrite forallb_flat_map, !existsb_flat_map.
-  assert (Hb : forall br, In br brs -> good fo (b_chain br)) by (intros br Hin; now destruct (H3 br Hin) as (_ & _ & ?)).
-  assert (E1 : forallb (fun x => forallb (item_ok fo) (flat_chain (b_chain x))) brs = true).
-  { apply forallb_forall. intros br Hin. now destruct (Hb br Hin). }
-  assert (E2 : forall p, (forall br, In br brs -> existsb p (sites (b_chain br)) = false) ->
-                         existsb (fun x => existsb p (sites (b_chain x))) brs = false).
-  { intros p Hp. apply not_true_is_false. intros E. apply existsb_exists in E as (br & Hin & E). rewrite (Hp br Hin) in E. discriminate. }
-  rewrite E1. rewrite !E2.
-  - destruct H as (_ & G2 & G3). unfold has_branch_mult, cls_double_close in G2, G3. rewrite sites_cons, !existsb_app in G2, G3.
-    apply orb_false_elim in G2 as [G2 _]. apply orb_false_elim in G3 as [G3 _]. rewrite G2, G3. repeat split.
-  - intros br Hin. now destruct (Hb br Hin) as (_ & _ & ?).
-  - intros br Hin. now destruct (Hb br Hin) as (_ & ? & _).
-Qed.
-Lemma good_tail fo it c : good fo (it :: c) -> good fo c.
-Proof. destruct it as [n r m b brs]. intros H. now destruct (good_cons fo n r m b brs c H) as (_ & _ & ?). Qed.
-
-Lemma chain_rg fo c : Forall (item_rg fo) c -> good fo c -> consumers_chain c = true -> rg_chain fo c = true.
-Proof.
-  induction 1 as [|x c Hx _ IH]; intros Hg Hc; [reflexivity|]. destruct c as [|y c'].
-  - cbn [rg_chain consumers_chain] in *. now apply Hx.
-  - change (consumers_chain (x :: y :: c')) with (consumers_item false x && consumers_chain (y :: c')) in Hc.
-    apply andb_prop in Hc as [Hc1 Hc2].
-    change (rg_chain fo (x :: y :: c')) with (rg_item fo false x && rg_chain fo (y :: c')).
-    rewrite (Hx false (good_single fo x _ Hg) Hc1). cbn [andb]. apply IH; [now apply (good_tail fo x)|assumption].
-Qed.
-Lemma last_plain_cons x y c : last_plain (x :: y :: c) = last_plain (y :: c).
-Proof.
-  unfold last_plain. cbn [rev]. destruct (rev c ++ [y]) as [|z t] eqn:E; [destruct (rev c); discriminate|]. reflexivity.
-Qed.
-Lemma bchain_rg fo c : Forall (item_rg fo) c -> good fo c -> consumers_chain c = true -> last_plain c = true ->
-  rg_bchain fo c = true.
-Proof.
-  induction 1 as [|x c Hx _ IH]; intros Hg Hc Hl; [reflexivity|]. destruct c as [|y c'].
-  - cbn [rg_bchain consumers_chain] in *. rewrite (Hx true Hg Hc). cbn [andb]. unfold last_plain in Hl. cbn in Hl. exact Hl.
-  - change (consumers_chain (x :: y :: c')) with (consumers_item false x && consumers_chain (y :: c')) in Hc.
-    apply andb_prop in Hc as [Hc1 Hc2]. rewrite last_plain_cons in Hl.
-    change (rg_bchain fo (x :: y :: c')) with (rg_item fo false x && rg_bchain fo (y :: c')).
-    rewrite (Hx false (good_single fo x _ Hg) Hc1). cbn [andb]. apply IH; [now apply (good_tail fo x)|assumption|assumption].
-Qed.
-
-Lemma ast_rg fo : forall it, item_rg fo it.
-Proof.
-  apply (item_ind2 (item_rg fo) (fun br => Forall (item_rg fo) (b_chain br))).
-  - intros n r m b brs Hbrs is_last Hg Hc. rewrite rg_item_eq. rewrite consumers_item_eq in Hc.
-    apply andb_prop in Hc as [Hc1 Hc2]. destruct (good_cons fo n r m b brs [] Hg) as (H1 & H3 & _).
-    rewrite H1, Hc1. cbn [andb]. clear Hc1 Hg H1.
-    induction brs as [|[c bm a] tl IHb]; [reflexivity|].
-    inversion Hbrs as [|? ? Hb Htl]; subst. cbn [b_chain] in Hb.
-    cbn [cons_brs] in Hc2. apply andb_prop in Hc2 as [Hc2 Hc3]. apply andb_prop in Hc2 as [Hca Hcc].
-    destruct (H3 (Branch c bm a) (or_introl eq_refl)) as (Hm & Hl & Hgc). cbn [b_mult b_chain] in Hm, Hl, Hgc. subst bm.
-    cbn [rg_branches rg_branch is_some negb andb].
-    rewrite (bchain_rg fo c Hb Hgc Hcc Hl), andb_true_r.
-    assert (Ht : (negb (is_some a) || (negb (is_nil tl) || negb is_last)) = true) by (now rewrite orb_assoc).
-    rewrite Ht. cbn [andb]. apply IHb; [assumption|assumption|].
-    intros br Hin. apply H3. now right.
-  - intros c bm a Hc. exact Hc.
-Qed.
-
-(** L2 and the combination *)
-Theorem rg_of_wf fo a : wf fo a = true -> has_branch_mult a = false -> cls_double_close a = false -> rg_chain fo a = true.
-Proof.
-  intros Hwf Hb Hd. unfold wf in Hwf. apply andb_prop in Hwf as [Hwf _]. apply andb_prop in Hwf as [Hwf Hcons].
-  apply andb_prop in Hwf as [_ Hok]. apply chain_rg; [|repeat split; assumption|assumption].
-  apply Forall_forall. intros it _. apply ast_rg.
-Qed.
+(** the combination for flat items with at most one closing *)
+Theorem rg_of_wf fo a : wf fo a = true -> has_branch_mult a = false -> cls_double_close a = false -> rg_chain false fo a = true.
+Proof. intros Hwf Hb Hd. apply rg_of_wf_gen; [assumption|assumption|intros _; exact Hd]. Qed.
 Theorem flat_ok_of_wf fo a : wf fo a = true -> has_branch_mult a = false -> cls_double_close a = false -> flat_ok fo a = true.
 Proof.
   intros Hwf Hb Hd. apply flat_ok_of_rg; [now apply rg_of_wf|].
